@@ -759,7 +759,7 @@ def c16(tier):
         qs.append(dq('dd_adder_destroyer_R2', [A, D], 2, [], **big))
         qs.append(dq('dd_adder_destroyer_preload_reenter_R2', [A, D], 2, ['PRELOAD2', 'REENTER'], **big))
         qs.append(dq('dd_adder_destroyer_preload_cb_reenter_R2', [A, D], 2, ['PRELOAD2', 'REENTER', 'WITH_CALLBACK'], **big))
-        qs.append(dq('dd_adder_destroyer_both_destroy_R2', [A, D], 2, ['PRELOAD2', 'ADDER_DESTROYS'], **big))
+        # (both threads calling destroyObjects, PRELOAD2 + ADDER_DESTROYS: kissat exceeded the 40 GB address-space cap after 55 min [measured]; not registered)
         qs.append(sq('dd_seq_single_cb', ['SINGLE', 'WITH_CALLBACK', 'REENTER', 'DROP2']))
         qs.append(sq('dd_seq_locked_cb', ['WITH_CALLBACK', 'REENTER', 'DROP1_EARLY']))
         # the container's own destructor reaps what is left (retry loop), after a fixed add / drop / destroy sequence
@@ -782,8 +782,7 @@ C16_SPEC = dict(queries=c16, assumptions=COMMON_ASSUMPTIONS + [
     "formula size: 13-16 M variables, 57-72 M clauses per concurrent query (cbmc 10-14 GB + kissat 6-8 GB, 12-25 min each): the memory governor of vcheck.py runs at most two at once"],
     outside=["more than 2 threads / 2 contexts per thread / 2 objects", "destroyObjects(delay) overload and the retry loop of ~DelayedDestructor racing with an owner that drops its reference "
              "meanwhile (the destructor is run after all threads finished, in the thorough tier)", "TripWire short-circuit (ENABLE_TRIPWIRE off)", "exceptions thrown by destructors / callbacks"])
-if os.environ.get('VP_EXPERIMENTAL'):
-    SPECS['C16'] = C16_SPEC
+SPECS['C16'] = C16_SPEC
 
 
 # ------------------------------------------------------------------------------------------------ C18 (experimental)
@@ -795,7 +794,7 @@ def c18(tier):
         kw.setdefault('timeout', 3400)
         kw.setdefault('unwind', 4)
         return mk(name, 'c18_delayedobj.cpp', threads, rounds, order=order, setup='vp_setup2', final='vp_final2', cover=sum(1 << {'S': 1, 'F': 2, 'C': 0}[t[0]] for t in threads), defines=defines,
-                  opts={'yield_blocks': False, 'noinline': NI}, object_bits=12, cflags=STUB, solvers=('kissat',), mem_gb=40, est_gb=20, **kw)
+                  opts={'yield_blocks': False, 'noinline': NI}, object_bits=12, cflags=STUB, solvers=('kissat',), mem_gb=24, est_gb=20, **kw)
     qs.append(dq('do_setter_fulfiller_R2', [S, F], 2, []))
     return qs
 
@@ -806,11 +805,8 @@ if os.environ.get('VP_EXPERIMENTAL'):
 
 # ------------------------------------------------------------------------------------------------ not claimed
 NOT_APPLICABLE = {
-    'C16': "DelayedDestructor: std::vector<shared_ptr<X>> growth, libstdc++'s 4x hand-unrolled std::remove_if/std::find and std::function copies made even the "
-           "sequential symbolic query (two objects, symbolic drop points) exceed 10 min / the memory cap in cbmc's symbolic execution [measured]; with every choice "
-           "concretised the run is a concrete execution (a test), not a solver verdict. Heap-backed containers are outside what this encoding reaches.",
     'C17': "SearchableObjectHolder: every operation goes through std::map<std::string, ...> (red-black-tree routines in libstdc++.so are modelled, but symbolic-content "
-           "std::string construction/comparison plus vector<Y> copies per entry are beyond the encoding, cf. C16/C18 measurements). Defect D3 (use of the erased node's key in "
+           "std::string construction/comparison plus vector<Y> copies per entry are beyond the encoding: C16, with only a vector of shared_ptr, already costs 13-16 M SAT variables and 12-26 min per two-thread query, and C18's maps did not get through symbolic execution). Defect D3 (use of the erased node's key in "
            "removeObject(predicate)) was found by reading, confirmed with ASan and repaired in /repo (fix: 5c115ee); no solver check decides C17.",
     'C18': "DelayedObjects: std::map<int/string, std::promise<X>> with symbolic keys/operation sequences did not finish symbolic execution in 10 min (two symbolic "
            "operations) [measured]; <future> itself had to be replaced by a stub (its state lives behind libstdc++.so entry points). A harness and the tree/future models "
